@@ -155,7 +155,9 @@ class Request(HTTPConnection):
                 return json.loads(
                     self.body.decode(self.content_type.options.get("charset", "utf8"))
                 )
-            except json.JSONDecodeError as exc:
+            except (ValueError, LookupError, RecursionError) as exc:
+                # JSONDecodeError, undecodable bytes, an unknown charset, an
+                # integer too long to convert, nesting too deep
                 raise MalformedJSON(str(exc)) from None
 
         raise UnsupportedMediaType("application/json")
